@@ -15,6 +15,19 @@ def handle (st : St) (ws : List String) : St × String :=
   | ["probe", n] => match n.toNat? with
     | some n => (st, String.join ((List.range n).map (fun i => showBool (has st [i]))))
     | none => (st, "bad-op")
+  | "rt" :: _codec :: _mode :: tgt =>
+    -- round trip through the identity list codec into a target: `rt nil`, `rt empty`, `rt <idx>*`
+    let t : Option St := match tgt with
+      | ["nil"] => some none
+      | ["empty"] => some (some [])
+      | xs => (natsOf xs).map make
+    match t with
+    | none => (st, "bad-op")
+    | some t =>
+      let shape := match encShape st with | none => "null" | some n => s!"seq:{n}"
+      match unmarshal ⟨id, fun d => some (d.getD [])⟩ t (marshal ⟨id, fun d => some (d.getD [])⟩ st) with
+      | none => (st, "err")
+      | some r => (st, s!"{shape} [{showList (elems r)}]")
   | op :: xs => match natsOf xs with
     | none => (st, "bad-op")
     | some xs =>
